@@ -59,6 +59,9 @@ type aluEnc struct {
 	twoOp  bool // uses both A and the operand (full cube); otherwise value x F
 	usesA  bool // one-operand instruction acting on A only (loc none)
 	spec   aluSpec
+	// reduced: an extra copy of an (IX+d)/(IY+d) encoding with another displacement; it is run on a reduced cube
+	// (16 values of A x all operands x 16 F values) - the full cube is run once, with the seed-derived displacement
+	reduced bool
 }
 
 func c02Encodings(seed uint64) []aluEnc {
@@ -195,6 +198,25 @@ func c02Encodings(seed uint64) []aluEnc {
 			na := a&0xf0 | v>>4
 			return na, v<<4 | a&0x0f, f&ref.FC | c02Logic(na), 0xff
 		}})
+	// every displacement-carrying encoding once more with each edge displacement
+	base := len(out)
+	for i := 0; i < base; i++ {
+		if out[i].loc != locMemIX && out[i].loc != locMemIY {
+			continue
+		}
+		for _, d := range []int8{0, 1, 0x7F, -128, -1, -127} {
+			if d == out[i].disp {
+				continue
+			}
+			e := out[i]
+			e.code = append([]uint8(nil), e.code...)
+			e.code[2] = uint8(d) // DD op d  /  DD CB d op: the displacement is the third byte either way
+			e.disp = d
+			e.reduced = true
+			e.name = fmt.Sprintf("%s [d=%d]", e.name, d)
+			out = append(out, e)
+		}
+	}
 	return out
 }
 
@@ -447,7 +469,7 @@ func TestC02(t *testing.T) {
 	}
 	col.Rule = fmt.Sprintf("complete enumeration through CPU.Step of A(256) x operand(256) x F(%d values) for two-operand forms (8 ALU ops x 25 operand encodings, RLD, RRD) and "+
 		"operand(256) x F for one-operand forms (INC/DEC x 14, RLCA..RRA, DAA, CPL, SCF, CCF, NEG, 8 rotates/shifts x 10 targets, BIT/RES/SET x 8 bits x 10 targets): %d encodings; "+
-		"oracle = tables of the bit-serial reference ALU; result, flags under the agreed mask, written operand and every other register compared; "+
+		"plus every (IX+d)/(IY+d) encoding once more with each of the displacements 0, 1, 127, -128, -127, -1 on a reduced cube (about 20 values of A x all operands x 16 F); oracle = tables of the bit-serial reference ALU; result, flags under the agreed mask, written operand and every other register compared; "+
 		"non-trivial = result differs from an input or F changes; points are distinct by construction", len(fs), len(encs))
 
 	type fail struct {
@@ -479,11 +501,17 @@ func TestC02(t *testing.T) {
 					m.m[c02CodeBase+uint16(i)] = e.code[i]
 				}
 				for a := j.a0; a < j.a1; a++ {
+					if e.reduced && e.twoOp && a%16 != (j.ei*5)%16 && a != 0 && a != 0xff && a != 0x80 && a != 0x7f {
+						continue
+					}
 					for v := 0; v < 256; v++ {
 						if (e.loc == locA && v != a) || (e.loc == locNone && v != 0) {
 							continue
 						}
-						for _, f := range fs {
+						for fi, f := range fs {
+							if e.reduced && fi%16 != (v+a)%16 {
+								continue
+							}
 							ev++
 							// ping-pong: every point runs on a struct copy of the CPU value that ran the previous one
 							flip ^= 1
@@ -534,7 +562,14 @@ func TestC02(t *testing.T) {
 	if first != nil {
 		violation(t, "C02", "alu", first.p, "bit-serial reference ALU", first.p.Enc+": "+first.msg)
 	}
-	col.LabelN("encodings", int64(len(encs)))
+	nred := 0
+	for i := range encs {
+		if encs[i].reduced {
+			nred++
+		}
+	}
+	col.LabelN("encodings", int64(len(encs)-nred))
+	col.LabelN("extra-displacement-variants-on-reduced-cube", int64(nred))
 	col.Sample(1, aluPoint{Enc: encs[0].name, Code: fmt.Sprintf("%x", encs[0].code), A: 0x7f, V: 0x01, F: 0x01, Seed: env.Seed})
 	col.Sample(2, aluPoint{Enc: "DAA", Code: "27", A: 0x9a, V: 0, F: 0x10, Seed: env.Seed})
 	col.Sample(3, aluPoint{Enc: "DD:SBC A,(IX+d)", Code: "dd9e..", A: 0x80, V: 0x7f, F: 0x01, Seed: env.Seed})
